@@ -18,6 +18,7 @@ from pbt import clientharness as ch, docs, jsongen as jg, methods as hm, refserv
 from pbt.runner import Check, Disc, Outcome
 
 from checks import c07, c09, c12, c19
+from checks.c01 import BATCH_LIMITS, batch_limit
 
 
 def summarise_value(v: Any) -> Any:
@@ -63,9 +64,9 @@ class C11(Check):
     def strategy(self, tier: str):
         def server_plain():
             reg = stdreg.std_registry('sync')
-            return st.builds(lambda text, beh, mbs: {'kind': 'server', 'max_batch_size': mbs, 'behaviours': beh, 'text': text,
+            return st.builds(lambda text, beh, mbs: {'kind': 'server', 'max_batch_size': batch_limit(text, mbs), 'behaviours': beh, 'text': text,
                                                      'middlewares': [], 'handlers': None},
-                             docs.document(reg), stdreg.behaviours(), st.sampled_from([None, None, 0, 1, 2, 4]))
+                             docs.document(reg), stdreg.behaviours(), st.sampled_from(BATCH_LIMITS))
         s12 = c12.CHECK.strategy(tier).map(lambda s: {'kind': 'server', 'max_batch_size': None, 'behaviours': s['behaviours'], 'text': s['text'],
                                                       'middlewares': s['middlewares'], 'handlers': s['handlers']})
         s19 = c19.CHECK.strategy(tier).map(lambda s: {**s, 'kind': 'client-script'})
